@@ -53,6 +53,18 @@ def leavesList : List Tree → List Nat
   | c :: cs => leaves c ++ leavesList cs
 end
 
+/-- pass 1 of the composition: a lower entry whose middle name the parent renames is re-keyed (and leaves the lower table) -/
+def pass1 (renamedHere : List String) (acc : Table × Table) (pe : String × String) : Table × Table :=
+  if renamedHere.contains pe.2 then
+    match acc.1.find? (·.1 == pe.2) with
+    | some le => (acc.1.filter (fun e => !(e.1 == pe.2)), acc.2 ++ [(pe.1, le.2)])
+    | none => acc
+  else acc
+
+/-- one step of `dict.update`: replace an existing key in place, append a new one -/
+def upd (acc : Table) (e : String × String) : Table :=
+  if acc.any (·.1 == e.1) then acc.map (fun a => if a.1 == e.1 then e else a) else acc ++ [e]
+
 /-- composition of the rename tables when a lower structure (table `L`: new_mid ↦ old_bottom) is lifted out of
 a sub-solver placed with table `P` (new_top ↦ old_mid), as `flatten_top_level` computes it:
 entries of `L` whose middle name is renamed by `P` are re-keyed; entries of `P` whose middle name the lower
@@ -60,18 +72,10 @@ structure neither renames nor shields are added; everything else of `L` is kept.
 def composeTables (P L : Table) : Table :=
   let shielded := L.map (·.2)
   let renamedHere := L.map (·.1)
-  -- pass 1: lower entries whose middle name the parent renames are re-keyed (and leave the lower table)
-  let pass1 := fun (acc : Table × Table) (pe : String × String) =>
-    let (lcur, up) := acc
-    if renamedHere.contains pe.2 then
-      match lcur.find? (·.1 == pe.2) with
-      | some le => (lcur.filter (fun e => !(e.1 == pe.2)), up ++ [(pe.1, le.2)])
-      | none => (lcur, up)
-    else (lcur, up)
-  let (lrest, up1) := P.foldl pass1 (L, [])
+  let r := P.foldl (pass1 renamedHere) (L, [])
   -- pass 2: parent entries for middle names the lower structure neither renames nor shields
-  let up2 := P.filter fun pe => !(renamedHere.contains pe.2) && !(shielded.contains pe.2) && !(lrest.any (·.1 == pe.1))
-  -- dict.update(up): replace existing keys in place, append new ones
-  (up1 ++ up2).foldl (fun acc e => if acc.any (·.1 == e.1) then acc.map (fun a => if a.1 == e.1 then e else a) else acc ++ [e]) lrest
+  let up2 := P.filter fun pe => !(renamedHere.contains pe.2) && !(shielded.contains pe.2) && !(r.1.any (·.1 == pe.1))
+  -- dict.update(up)
+  (r.2 ++ up2).foldl upd r.1
 
 end Flatten
